@@ -16,6 +16,7 @@ package krpc
 //@   ensures decoded: len(b) >= 2 ==> result == nil && len(me.IP) == len(b) - 2 && me.Port == (int(b[len(b)-2]) << 8 | int(b[len(b)-1]))
 //@   ensures ip-bytes: len(b) >= 2 ==> bstr(me.IP) == old(bstr(subslice(b, 0, len(b)-2)))
 //@   ensures port-in-range: len(b) >= 2 ==> 0 <= me.Port && me.Port < 65536
+//@   ensures the-ip-is-a-copy-of-its-own: len(b) > 2 ==> !sameobj(me.IP, b)
 
 //@ func (*dht/krpc.NodeInfo).UnmarshalBinary
 //@   requires nonnil: ni != nil
